@@ -2043,7 +2043,7 @@ namespace avel {
     [[nodiscard]]
     AVEL_FINL mask2x64f signbit(vec2x64f arg) {
         #if (defined(AVEL_AVX512VL) && defined(AVEL_AVX512DQ)) || defined(AVEL_AVX10_1)
-        return mask2x64f{_mm_fpclass_pd_mask(decay(arg), 0x40 | 0x04 | 0x10)};
+        return mask2x64f{_mm_movepi64_mask(_mm_castpd_si128(decay(arg)))};
 
         #elif defined(AVEL_AVX512VL)
         return mask2x64f{_mm_cmplt_epi64_mask(_mm_castpd_si128(decay(arg)), _mm_setzero_si128())};
